@@ -718,7 +718,10 @@ def mpi_atan2(y, x, prec):
     if ya == yb == fzero:
         if mpf_ge(xa, fzero):
             return mpi_zero
-        return mpi_pi(prec)
+        if mpf_lt(xb, fzero):
+            return mpi_pi(prec)
+        # Straddles the origin: arg is 0 on the right and pi on the left
+        return fzero, mpf_pi(prec, round_ceiling)
     # Right half-plane
     if mpf_ge(xa, fzero):
         if mpf_ge(ya, fzero):
@@ -738,6 +741,11 @@ def mpi_atan2(y, x, prec):
             a = mpf_atan2(ya, xb, prec, round_floor)
     # Lower half-plane
     elif mpf_le(yb, fzero):
+        if yb == fzero and mpf_lt(xa, fzero):
+            # Touches the negative real axis from below: arg is +pi on
+            # the axis and close to -pi just below it
+            b = mpf_pi(prec, round_ceiling)
+            return mpf_neg(b), b
         a = mpf_atan2(yb, xa, prec, round_floor)
         if mpf_le(xb, fzero):
             b = mpf_atan2(ya, xb, prec, round_ceiling)
